@@ -6,8 +6,11 @@ tier=${1:-quick}; shift
 seeds=${@:-1}
 mkdir -p $out
 for seed in $seeds; do
+  n=0
   for i in 01 02 03 04 05 06 07 08 09 10 11 12 13 14 15 16 17 18 19 20; do
     ( VERIF_SEED=$seed $here/check C$i --tier $tier > $out/C$i.$seed.log 2>&1; echo "seed=$seed C$i exit=$? $(tail -1 $out/C$i.$seed.log | cut -c1-150)" ) &
+    n=$((n+1))
+    if [ -n "$ALLCHECKS_JOBS" ] && [ $((n % ALLCHECKS_JOBS)) -eq 0 ]; then wait; fi
   done
   wait
 done | sort
